@@ -147,4 +147,65 @@ EnvHas(env, pair) == \E k \in 1..Len(env) : env[k] = pair
 EnvValue(env, name) == IF \E k \in 1..Len(env) : env[k][1] = name
                        THEN env[CHOOSE k \in 1..Len(env) : env[k][1] = name /\ \A m \in (k + 1)..Len(env) : env[m][1] # name][2]
                        ELSE <<-2>>
+
+\* ---- environment values: a command position of its own ----------------------------------------
+(***************************************************************************)
+(* What a build definition says about the environment of a command         *)
+(* (test / benchmark / custom_target / run_target / generator.process      *)
+(* `env:', meson.add_devenv, add_test_setup) is a sequence of entries, in   *)
+(* the order it says them:                                                  *)
+(*   [form |-> "pair", op, name, values, sep]                               *)
+(*       a dictionary entry {'NAME': 'V'} / {'NAME': ['V1', 'V2']} or a      *)
+(*       method call env.set / append / prepend('NAME', 'V1', 'V2',         *)
+(*       separator: sep);                                                   *)
+(*   [form |-> "string", op, name |-> <<>>, values |-> <<text>>, sep]       *)
+(*       the text 'NAME=VALUE', on its own or as an element of a list.      *)
+(* op is "set" (the env: keyword, environment(x), env.set), "append" or    *)
+(* "prepend" (env.append / env.prepend, environment(x, method: ..)).       *)
+(* Every spelling denotes the same thing - a name and a value - and the    *)
+(* VALUE is an argument string like any other: it arrives unchanged.        *)
+(*   E1  the string form is split at the FIRST `=' only: NAME is what       *)
+(*       precedes it, VALUE is everything after it, exactly (blanks at      *)
+(*       either end, further `=', quotes, newlines included);               *)
+(*   E2  several values are joined with the separator and nothing else;     *)
+(*   E3  "set" replaces; "append" / "prepend" put the joined values after  *)
+(*       / before the value the variable has at that point (from the        *)
+(*       environment meson's runner itself was started in - `ambient' -     *)
+(*       or from an earlier entry) with the separator in between; the       *)
+(*       joined values alone if it has none.                                *)
+(* An environment is a sequence of <<name, value>>; the last pair of a      *)
+(* name counts (EnvValue).                                                  *)
+(***************************************************************************)
+EnvOps == {"set", "append", "prepend"}
+RECURSIVE JoinWith(_, _, _)
+JoinWith(vals, sep, k) == IF k > Len(vals) THEN <<>>
+                          ELSE IF k = Len(vals) THEN vals[k]
+                          ELSE vals[k] \o sep \o JoinWith(vals, sep, k + 1)
+EntryWellFormed(e) == /\ e.op \in EnvOps
+                      /\ IF e.form = "string" THEN Len(e.values) = 1 /\ HasEq(e.values[1]) ELSE Len(e.values) >= 1
+\* E1, E2: the name and the value an entry denotes
+EntryName(e) == IF e.form = "string" THEN AsPair(e.values[1])[1] ELSE e.name
+EntryValue(e) == IF e.form = "string" THEN AsPair(e.values[1])[2] ELSE JoinWith(e.values, e.sep, 1)
+\* E3
+EnvStep(env, e) ==
+    LET n == EntryName(e)
+        v == EntryValue(e)
+        cur == EnvValue(env, n)
+    IN Append(env, <<n, IF e.op = "set" \/ cur = <<-2>> THEN v
+                        ELSE IF e.op = "append" THEN cur \o e.sep \o v
+                        ELSE v \o e.sep \o cur>>)
+RECURSIVE EnvFold(_, _, _)
+EnvFold(env, spec, k) == IF k > Len(spec) THEN env ELSE EnvFold(EnvStep(env, spec[k]), spec, k + 1)
+\* the environment the process must see (as far as the names of spec and ambient go)
+ExpectedEnv(spec, ambient) == EnvFold(ambient, spec, 1)
+\* the names a specification talks about, in order of first mention, each with its final value
+RECURSIVE SpecNames(_, _, _)
+SpecNames(spec, k, acc) ==
+    IF k > Len(spec) THEN acc
+    ELSE LET n == EntryName(spec[k]) IN
+         SpecNames(spec, k + 1, IF \E m \in 1..Len(acc) : acc[m] = n THEN acc ELSE Append(acc, n))
+WantedEnv(spec, ambient) ==
+    LET names == SpecNames(spec, 1, <<>>)
+        full == ExpectedEnv(spec, ambient)
+    IN [k \in 1..Len(names) |-> <<names[k], EnvValue(full, names[k])>>]
 =============================================================================
